@@ -18,6 +18,7 @@ import random
 import shutil
 import tempfile
 import threading
+import time
 import warnings
 
 from vlib import core
@@ -294,26 +295,28 @@ def judge(res, case, r, mod):
     if sig:
         replay_case = dict(case, policy='replay', schedule=r['schedule'], part='threaded')
 
+        found = {}
+
         def fails(c):
-            c = dict(c, policy='random') if c['ops'] != ops else c
             # a shrunk program needs a new schedule: try a few seeds
-            for s in range(12):
+            for sd in range(12):
                 rr = run_scheduled(c['ops'], c['maxsize'], c.get('fail_at'),
-                                   make_chooser(dict(c, policy='random', sseed=s)))
-                if oracle(c['ops'], rr, c.get('fail_at'))[0] == sig:
-                    c['_found'] = rr['schedule']
+                                   make_chooser(dict(c, policy='random', sseed=sd)))
+                s2, d2 = oracle(c['ops'], rr, c.get('fail_at'))
+                if s2 == sig:
+                    found.update(ops=c['ops'], schedule=rr['schedule'], detail=d2)
                     return True
             return False
-        small = shrink_case(replay_case, fails)
-        if small['ops'] != ops:
-            probe = dict(small)
-            if fails(probe):
-                small = dict(small, schedule=probe['_found'])
-                rr = run_scheduled(small['ops'], small['maxsize'], small.get('fail_at'), make_chooser(small))
-                s2, d2 = oracle(small['ops'], rr, small.get('fail_at'))
-                if s2 == sig:
-                    replay_case, detail = small, d2
-        replay_case.pop('_found', None)
+        shrunk = getattr(res, '_shrunk', None)
+        if shrunk is None:
+            shrunk = res._shrunk = set()
+        small = replay_case
+        if sig not in shrunk:        # shrink only the first failure of each kind
+            shrunk.add(sig)
+            small = shrink_case(replay_case, fails)
+        if small['ops'] != ops and found.get('ops') == small['ops']:
+            replay_case = dict(small, schedule=found['schedule'], original_ops=ops)
+            detail = found['detail']
         res.fail('property', sig, detail, replay_case)
     if mod is not None:
         res.traces_validated += 1
@@ -326,6 +329,7 @@ def judge(res, case, r, mod):
 
 def run_batch(ctx, cases, use_model=True, procs=1):
     res = core.Result()
+    import tenpy.tools.cache  # noqa: F401  (import once, before forking)
     if procs > 1:
         with multiprocessing.get_context('fork').Pool(procs) as pool:
             results = pool.map(run_case, cases, chunksize=8)
@@ -354,12 +358,12 @@ def random_cases(rng, n, maxlen, fault_frac=0.3):
     return cases
 
 
-def enumerate_schedules(base, max_preempt, limit):
+def enumerate_schedules(base, max_preempt, limit, deadline=None):
     """all schedules (up to polling and the preemption bound) of one program: depth-first over choice vectors;
     yields (case, result)"""
     prefix = []
     n = 0
-    while prefix is not None and n < limit:
+    while prefix is not None and n < limit and (deadline is None or time.time() < deadline):
         case = dict(base, policy='prefix', prefix=list(prefix), max_preempt=max_preempt)
         r = run_case(case)
         n += 1
@@ -368,25 +372,30 @@ def enumerate_schedules(base, max_preempt, limit):
 
 
 def _enum_worker(args):
-    base, max_preempt, limit = args
+    base, max_preempt, limit, deadline = args
     core.use_repo()
-    return [(c, r) for c, r in enumerate_schedules(base, max_preempt, limit)]
+    out = [(c, r) for c, r in enumerate_schedules(base, max_preempt, limit, deadline)]
+    exhausted = len(out) < limit and (deadline is None or time.time() < deadline)
+    # keep the memory of the parent bounded: the parent only needs what the judge looks at
+    return out, exhausted
 
 
-def systematic(ctx, programs, max_preempt, limit, procs=1):
+def systematic(ctx, programs, max_preempt, limit, procs=1, seconds=None):
     res = core.Result()
-    jobs = [(dict(part='threaded', ops=ops, maxsize=ms, fail_at=fa), max_preempt, limit)
+    deadline = None if seconds is None else time.time() + seconds
+    jobs = [(dict(part='threaded', ops=ops, maxsize=ms, fail_at=fa), max_preempt, limit, deadline)
             for ops, ms, fa in programs]
     if procs > 1:
         with multiprocessing.get_context('fork').Pool(procs) as pool:
             out = pool.map(_enum_worker, jobs, chunksize=1)
     else:
         out = [_enum_worker(j) for j in jobs]
-    pairs = [p for lst in out for p in lst]
-    exhausted = sum(1 for lst in out if len(lst) < limit)
-    res.extra['threaded_systematic_programs'] = len(jobs)
-    res.extra['threaded_systematic_programs_exhausted'] = exhausted
-    res.extra['threaded_systematic_schedules'] = len(pairs)
+    pairs = [p for lst, _ in out for p in lst]
+    exhausted = sum(1 for _, ex in out if ex)
+    key = 'threaded_systematic_p%d' % max_preempt
+    res.extra[key + '_programs'] = len(jobs)
+    res.extra[key + '_programs_fully_enumerated'] = exhausted
+    res.extra[key + '_schedules'] = len(pairs)
     mods = core.run_driver('C20', [model_request(c['ops'], c['maxsize'], c.get('fail_at'), r['schedule'])
                                    for c, r in pairs]) if pairs else []
     for (c, r), m in zip(pairs, mods):
@@ -492,19 +501,44 @@ CORPUS = [
 ]
 
 
+def load_corpus_files():
+    import json
+    out = []
+    for f in sorted((core.CORPUS_DIR / 'C20').glob('*.json')):
+        c = json.loads(f.read_text())
+        if c.get('part') == 'threaded':
+            out.append(c)
+    return out
+
+
 def run(ctx):
     res = core.Result()
     rng = ctx.sub_rng('threaded')
-    procs = 1 if ctx.quick else 14
-    cases = [dict(c, part='threaded') for c in CORPUS]
-    cases += random_cases(rng, 2000 if ctx.quick else 100000, 8 if ctx.quick else 10)
-    res.merge(run_batch(ctx, cases, procs=8 if ctx.quick else procs))
     rng2 = ctx.sub_rng('threaded-systematic')
+    cases = [dict(c, part='threaded') for c in CORPUS] + load_corpus_files()
     if ctx.quick:
-        res.merge(systematic(ctx, short_programs(rng2, 8, 3), max_preempt=2, limit=150, procs=8))
-    else:
-        res.merge(systematic(ctx, short_programs(rng2, 60, 5), max_preempt=3, limit=60000, procs=procs))
-    res.merge(stress(ctx, 60 if ctx.quick else 3000, 14, procs=8 if ctx.quick else procs))
+        cases += random_cases(rng, 2000, 8)
+        res.merge(run_batch(ctx, cases, procs=8))
+        progs = short_programs(rng2, 10, 3)
+        res.merge(systematic(ctx, progs, max_preempt=2, limit=200, procs=8, seconds=40))
+        tiny = sorted(progs, key=lambda p: len(p[0]))[:4]
+        res.merge(systematic(ctx, tiny, max_preempt=1000, limit=500, procs=8, seconds=30))
+        res.merge(stress(ctx, 80, 14, procs=8))
+        return res
+    procs = 14
+    res.merge(run_batch(ctx, cases, procs=1))
+    t0, n = time.time(), 0
+    while n < 200000 and time.time() - t0 < 0.33 * ctx.budget_s:
+        res.merge(run_batch(ctx, random_cases(rng, 6000, 10), procs=procs))
+        n += 6000
+    res.extra['threaded_random_cases'] = n
+    progs = short_programs(rng2, 90, 5)
+    res.merge(systematic(ctx, progs, max_preempt=2, limit=6000, procs=procs, seconds=0.15 * ctx.budget_s))
+    short = sorted(progs, key=lambda p: len(p[0]))
+    res.merge(systematic(ctx, short[:40], max_preempt=3, limit=20000, procs=procs, seconds=0.12 * ctx.budget_s))
+    # no bound on preemptions (all schedules up to idle polling) for the shortest programs
+    res.merge(systematic(ctx, short[:14], max_preempt=1000, limit=40000, procs=procs, seconds=0.12 * ctx.budget_s))
+    res.merge(stress(ctx, 1500, 14, procs=procs))
     return res
 
 
